@@ -599,4 +599,201 @@ theorem columnarSelectW_eq (t : Table) (ht : TypedRows t) (u : Unspec) (c : Cond
       exact hb.1
   · rfl
 
+/-! ## row id = slot + 1 -/
+
+def IdPos (t : Table) : Prop := ∀ (p : Nat) (r : RowE), t.rows[p]? = some r → r.id = p + 1
+
+theorem idPos_of_map (rows : List RowE) (f : RowE → RowE) (hf : ∀ x, (f x).id = x.id)
+    (h : ∀ (p : Nat) (r : RowE), rows[p]? = some r → r.id = p + 1) :
+    ∀ (p : Nat) (r : RowE), (rows.map f)[p]? = some r → r.id = p + 1 := by
+  intro p r hr
+  rw [List.getElem?_map] at hr
+  cases hx : rows[p]? with
+  | none => simp [hx] at hr
+  | some x =>
+    simp only [hx, Option.map_some, Option.some.injEq] at hr
+    rw [← hr, hf]; exact h p x hx
+
+theorem insertOp_idPos (t : Table) (vals : List Value) (h : IdPos t) : IdPos (applyOp t (.insert vals)) := by
+  simp only [applyOp]
+  unfold insert
+  by_cases hl : vals.length ≠ t.schema.length
+  · rw [if_pos hl]; exact h
+  · rw [if_neg hl]
+    cases validateRow t.schema vals with
+    | some e => exact h
+    | none =>
+      simp only
+      unfold IdPos
+      intro p r hr
+      simp only at hr
+      by_cases hp : p < t.rows.length
+      · rw [List.getElem?_append_left hp] at hr; exact h p r hr
+      · rw [List.getElem?_append_right (by omega)] at hr
+        cases hq : p - t.rows.length with
+        | zero =>
+          simp only [hq, List.getElem?_cons_zero, Option.some.injEq] at hr
+          subst hr; simp only; omega
+        | succ q => simp [hq] at hr
+
+theorem insertsFold_idPos : ∀ (rows : List (List Value)) (t : Table), IdPos t →
+    IdPos (rows.foldl (fun t v => applyOp t (.insert v)) t) := by
+  intro rows
+  induction rows with
+  | nil => intro t h; exact h
+  | cons v vs ih => intro t h; rw [List.foldl_cons]; exact ih _ (insertOp_idPos t v h)
+
+theorem applyOp_idPos (t : Table) (op : Op) (hi : IdxInv t) (h : IdPos t) : IdPos (applyOp t op) := by
+  cases op with
+  | insert vals => exact insertOp_idPos t vals h
+  | batchInsert rows =>
+    simp only [applyOp]
+    cases hb : batchInsert t rows with
+    | error e => exact h
+    | ok p =>
+      obtain ⟨t', ids⟩ := p
+      simp only
+      rw [batchInsert_eq_inserts t rows t' ids hb]
+      exact insertsFold_idPos rows t h
+  | update c sets =>
+    simp only [applyOp]
+    cases hu : update t c sets with
+    | error e => exact h
+    | ok p =>
+      obtain ⟨t', n⟩ := p
+      simp only
+      unfold IdPos
+      rw [update_rows_eq t c sets t' n hi.1 hu]
+      exact idPos_of_map t.rows _ (fun x => by split <;> rfl) h
+  | delete c =>
+    simp only [applyOp]
+    unfold IdPos
+    rw [delete_rows_eq t c hi.1]
+    exact idPos_of_map t.rows _ (fun x => by split <;> rfl) h
+  | createHash col => unfold IdPos; rw [indexOp_rows t col _ (Or.inl rfl)]; exact h
+  | createOrd col => unfold IdPos; rw [indexOp_rows t col _ (Or.inr (Or.inl rfl))]; exact h
+  | dropHash col => unfold IdPos; rw [indexOp_rows t col _ (Or.inr (Or.inr (Or.inl rfl)))]; exact h
+  | dropOrd col => unfold IdPos; rw [indexOp_rows t col _ (Or.inr (Or.inr (Or.inr rfl)))]; exact h
+
+theorem run_idPos (schema : List (ColType × Bool)) (ops : List Op) : IdPos (run schema ops) := by
+  unfold run
+  suffices ∀ t, IdxInv t → IdPos t → IdPos (ops.foldl applyOp t) from
+    this _ (idxInv_empty schema) (by unfold IdPos; intro p r hr; simp [Table.empty] at hr)
+  induction ops with
+  | nil => intro t _ h; exact h
+  | cons op ops ih =>
+    intro t hi h
+    exact ih _ (applyOp_preserves t op hi) (applyOp_idPos t op hi h)
+
+/-- looking a row up by id is reading slot `id - 1` -/
+theorem find_by_id_eq_slot (t : Table) (hw : RowsWF t.rows) (hp : IdPos t) (i : Nat) (h1 : 1 ≤ i) :
+    t.rows.find? (fun r => decide (r.id = i) && r.alive) =
+      (match t.rows[i - 1]? with
+       | some r => if r.alive then some r else none
+       | none => none) := by
+  cases hs : t.rows[i - 1]? with
+  | none =>
+    simp only
+    rw [List.find?_eq_none]
+    intro r hr
+    obtain ⟨p, hpl, hpr⟩ := List.getElem_of_mem hr
+    have hid := hp p r (by rw [List.getElem?_eq_getElem hpl, hpr])
+    have : t.rows.length ≤ i - 1 := by
+      rcases Nat.lt_or_ge (i - 1) t.rows.length with hlt | hge
+      · rw [List.getElem?_eq_getElem hlt] at hs; cases hs
+      · exact hge
+    simp only [Bool.and_eq_true, decide_eq_true_eq, not_and]
+    intro he; omega
+  | some r =>
+    simp only
+    have hmem : r ∈ t.rows := List.mem_of_getElem? hs
+    have hid : r.id = i := by have := hp (i - 1) r hs; omega
+    by_cases ha : r.alive = true
+    · rw [if_pos ha]
+      cases hf : t.rows.find? (fun r => decide (r.id = i) && r.alive) with
+      | none =>
+        rw [List.find?_eq_none] at hf
+        have := hf r hmem
+        simp [hid, ha] at this
+      | some r' =>
+        have hm' := List.mem_of_find?_eq_some hf
+        have hp' := List.find?_some hf
+        simp only [Bool.and_eq_true, decide_eq_true_eq] at hp'
+        rw [id_inj t.rows hw.1 r' hm' r hmem (hp'.1.trans hid.symm)]
+    · rw [if_neg ha]
+      rw [List.find?_eq_none]
+      intro r' hr'
+      simp only [Bool.and_eq_true, decide_eq_true_eq, not_and]
+      intro he
+      have := id_inj t.rows hw.1 r' hr' r hmem (he.trans hid.symm)
+      subst this
+      exact ha
+
+theorem filterMap_congr_mem {α β : Type} (f g : α → Option β) : ∀ (l : List α), (∀ x ∈ l, f x = g x) →
+    l.filterMap f = l.filterMap g := by
+  intro l
+  induction l with
+  | nil => intro _; rfl
+  | cons x xs ih =>
+    intro h
+    rw [List.filterMap_cons, List.filterMap_cons, h x (by simp), ih (fun y hy => h y (List.mem_cons_of_mem _ hy))]
+
+theorem fetch_eq_fetchBySlot (t : Table) (hw : RowsWF t.rows) (hp : IdPos t) (ids : List Nat)
+    (h1 : ∀ i ∈ ids, 1 ≤ i) : fetch t ids = fetchBySlot t ids := by
+  unfold fetch fetchBySlot
+  exact filterMap_congr_mem _ _ ids (fun i hi => find_by_id_eq_slot t hw hp i (h1 i hi))
+
+/-- ids handed out by an index lookup belong to rows, so they are at least 1 -/
+theorem lookup_ids_pos (t : Table) (hi : IdxInv t) (hp : IdPos t) (c : Cond) :
+    ∀ ids, tryIndexLookup t c = some ids → ∀ i ∈ ids, 1 ≤ i := by
+  induction c with
+  | tt => intro ids h; simp [tryIndexLookup] at h
+  | ne c v => intro ids h; simp [tryIndexLookup] at h
+  | or a b _ _ => intro ids h; simp [tryIndexLookup] at h
+  | eq col v =>
+    intro ids h i hin
+    simp only [tryIndexLookup, Option.map_eq_some_iff] at h
+    obtain ⟨ix, hix, rfl⟩ := h
+    have k := hi.2.1 col ix (assocGet_mem col _ ix hix)
+    unfold hashLookup at hin
+    obtain ⟨pr, hpr, rfl⟩ := List.mem_map.1 hin
+    obtain ⟨r, hr, hid, _⟩ := k.sound pr.1 pr.2 (List.mem_filter.1 hpr).1
+    obtain ⟨p, hpl, hpe⟩ := List.getElem_of_mem hr
+    have := hp p r (by rw [List.getElem?_eq_getElem hpl, hpe])
+    omega
+  | rng op col v =>
+    intro ids h i hin
+    simp only [tryIndexLookup, Option.map_eq_some_iff] at h
+    obtain ⟨ix, hix, rfl⟩ := h
+    have k := hi.2.2.1 col ix (assocGet_mem col _ ix hix)
+    unfold rangeLookup at hin
+    obtain ⟨pr, hpr, rfl⟩ := List.mem_map.1 hin
+    obtain ⟨r, hr, hid, _⟩ := k.sound pr.1 pr.2 (List.mem_filter.1 hpr).1
+    obtain ⟨p, hpl, hpe⟩ := List.getElem_of_mem hr
+    have := hp p r (by rw [List.getElem?_eq_getElem hpl, hpe])
+    omega
+  | and a b iha ihb =>
+    intro ids h
+    simp only [tryIndexLookup] at h
+    cases ha : tryIndexLookup t a with
+    | some ia => simp only [ha, Option.some.injEq] at h; subst h; exact iha ia ha
+    | none => simp only [ha] at h; exact ihb ids h
+
+/-- the word-level fetch numbers the selected slots `slot + 1` -/
+theorem rowsByIndices_slot_plus_one (t : Table) (hp : IdPos t) (idxs : List Nat) :
+    rowsByIndices t.rows idxs =
+      (idxs.filter (fun i => match t.rows[i]? with | some r => r.alive | none => false)).map (· + 1) := by
+  unfold rowsByIndices
+  induction idxs with
+  | nil => rfl
+  | cons i is ih =>
+    rw [List.filterMap_cons, List.filter_cons]
+    cases hs : t.rows[i]? with
+    | none => simp only [Bool.false_eq_true, if_false]; exact ih
+    | some r =>
+      simp only
+      by_cases ha : r.alive = true
+      · simp only [ha, if_true, List.map_cons, ih, hp i r hs]
+      · simp only [ha, Bool.false_eq_true, if_false]; exact ih
+
 end Neumann.Rel
